@@ -193,7 +193,19 @@ impl ConsoleAppenderBuilder {
             },
         };
 
-        let do_write = writer.is_tty() || !self.tty_only;
+        // `tty_only` is about the stream being a terminal, not about colour: the colour writer
+        // is also chosen for a pipe when colour is forced, and not chosen for a terminal when
+        // colour is disabled.
+        #[cfg(unix)]
+        let is_tty = unsafe {
+            libc::isatty(match self.target {
+                Target::Stderr => libc::STDERR_FILENO,
+                Target::Stdout => libc::STDOUT_FILENO,
+            }) == 1
+        };
+        #[cfg(not(unix))]
+        let is_tty = writer.is_tty();
+        let do_write = is_tty || !self.tty_only;
 
         ConsoleAppender {
             writer,
